@@ -5,5 +5,6 @@ cd /verif
 git -C /repo apply /verif/seeded/$NAME/patch.diff || { echo "patch does not apply"; exit 2; }
 ./vcheck $PROP --tier $TIER > /tmp/try_$NAME.out 2>&1; RC=$?
 git -C /repo checkout -- .
+python3 /verif/tools/extract.py > /dev/null   # bring coq/gen back to the unchanged tree
 echo "$NAME on $PROP: rc=$RC  $(grep -c '^VIOLATION' /tmp/try_$NAME.out) violation line(s)"
 grep '^VIOLATION' /tmp/try_$NAME.out | head -3 | cut -c1-160
